@@ -182,12 +182,25 @@ impl log::Log for FormatEverything {
         let mut sink = String::new();
         let _ = write!(sink, "{}", record.args());
         std::hint::black_box(&sink);
+        // ... and through the logger the deployed daemon installs (`glonaxd --daemon`): it prints to stdout, which this process
+        // has pointed at /dev/null (error records go to stderr there: left out to keep the check's diagnostics readable)
+        if record.level() != log::Level::Error {
+            log::Log::log(&glonax::logger::SystemdLogger, record);
+        }
     }
     fn flush(&self) {}
 }
 
 pub fn log_everything() {
     static L: FormatEverything = FormatEverything;
+    // nothing this process has to say goes to stdout (cases go to the case file, diagnostics to stderr)
+    unsafe {
+        let devnull = libc::open(b"/dev/null\0".as_ptr() as *const libc::c_char, libc::O_WRONLY);
+        if devnull >= 0 {
+            libc::dup2(devnull, 1);
+            libc::close(devnull);
+        }
+    }
     let _ = log::set_logger(&L);
     log::set_max_level(log::LevelFilter::Trace);
 }
